@@ -227,12 +227,6 @@ func (i *Interp) yield(cond func() bool) {
 		next = i.passOver(cur, next, cands)
 	}
 	if next == cur {
-		if cond != nil && !cond() {
-			// (late-goroutine mode) the only alternative was passed over and the poller's
-			// condition does not hold yet: time passes, it polls again
-			cur.blocked = nil
-			return
-		}
 		cur.blocked = nil
 		return
 	}
@@ -597,6 +591,23 @@ func (i *Interp) pollYield() {
 		// nobody else can run: time passes, the poller continues (endless polling is
 		// caught by the step bound)
 		return
+	}
+	if v := i.lateVictim; v != nil && v != cur {
+		// late-goroutine mode: if the goroutine held back is the only one that could use the
+		// pause, either it is released now or the pause passes without it having run
+		only := true
+		for _, t := range i.threads {
+			if t != cur && t != v && !t.done && !t.killed && (t.blocked == nil || t.blocked()) {
+				only = false
+			}
+		}
+		if only {
+			if i.lateLeft > 0 && i.chooseIndex(2) == 1 {
+				i.lateLeft--
+				return
+			}
+			i.lateVictim = nil
+		}
 	}
 	mark := i.switches
 	i.yield(func() bool { return i.switches > mark })
